@@ -5,7 +5,7 @@ import json
 from pathlib import Path
 
 from . import coq
-from .tcore import Spec, Translator, Unsupported, NAT, X, F, BOOL, AGENT, DIR, OPT, LIST, TUP
+from .tcore import Spec, Translator, Unsupported, NAT, X, F, BOOL, AGENT, DIR, OPT, RES, LIST, TUP
 
 GEN = coq.COQ / "gen"
 HEADER = "(* GENERATED from /repo by pv/regen.py on every run — do not edit. *)\n"
@@ -104,6 +104,36 @@ def report_specs() -> list[Spec]:
     ]
 
 
+def init_specs() -> list[Spec]:
+    m, a, h = "models.py", "abstract.py", "helpers.py"
+    COORD, OBJV, TASK, SVAR, AG = "coord", "objv", "task", "svar", "(agent FT)"
+    T = ("t!", "t", TASK)
+    OBJ_CALL = {"self.objective_function": lambda arg: (f"(obj {arg(0)[0]})", OBJV)}
+    return [
+        Spec("gen_task_correct_solution", m, "Task", "correct_solution", [T, ("solution", "solution", LIST(COORD))], LIST(COORD), fallible=True,
+             attrs={"idioms": {"self.get_variables()": ("(flat_vars t)", LIST(SVAR))},
+                    "calls": {"v.correct": lambda arg: (f"(correct1 v {arg(0)[0]})", RES(COORD))}}),
+        Spec("gen_task_solve", m, "Task", "solve", [T, ("x", "x", LIST(COORD))], OBJV, fallible=True, attrs={"calls": OBJ_CALL}),
+        Spec("gen_task_initial_solution", m, "Task", "initial_solution",
+             [T, ("solution", "solution", OPT(LIST(COORD))), ("draw!", "draw", LIST(COORD))], LIST(COORD), fallible=True,
+             attrs={"idioms": {"solution.tolist() if isinstance(solution, np.ndarray) else solution": ("{solution}", OPT(LIST(COORD))),
+                               "solution if solution is not None else self.empty_solution()":
+                                   ("(match {solution} with Some s_ => s_ | None => draw end)", LIST(COORD))}}),
+        Spec("gen_fcn", a, "OptimizationAbstract", "_fcn", [T, ("self._task.minmax", "d", DIR), ("x", "x", LIST(COORD))], OBJV, fallible=True,
+             attrs={"idioms": {"[-1 * c for c in cost] if isinstance(cost, list) else -1 * cost": ("(objv_neg {cost})", OBJV)}}),
+        Spec("gen_init_agent", a, "OptimizationAbstract", "_init_agent",
+             [T, ("self._task.minmax", "d", DIR), ("self._task.objective_weights", "w", OPT(LIST("W"))),
+              ("position", "position", OPT(LIST(COORD))), ("draw!", "draw", LIST(COORD))], AG, fallible=True,
+             attrs={"idioms": {
+                 "len(self._task.objective_weights) if self._task.objective_weights is not None else 1": ("(n_weights W w)", NAT),
+                 "len(cost) if isinstance(cost, list) else 1": ("(objv_count {cost})", NAT),
+                 "np.dot(cost, self._task.objective_weights) if self._task.objective_weights is not None else cost": ("(mix W dot {cost} w)", RES(X)),
+                 "Agent(position=position, cost=cost, fitness=calculate_fitness(cost, self._task.minmax))":
+                     ("{{| a_pos := {position}; a_cost := {cost}; a_fit := fitness_of {cost} d |}}", AG)}}),
+        Spec("gen_fitness", h, None, "calculate_fitness", [("value", "value", F), ("task_type", "task_type", DIR)], F, floats=FLOATS),
+    ]
+
+
 def emit_group(repo: Path, fname: str, imports: str, section_vars: str, specs: list[Spec], status: dict,
                extra: str = "") -> None:
     tr = Translator(repo, specs)
@@ -140,8 +170,27 @@ def regenerate(repo: Path) -> dict:
                "Variable F : Type.\nVariables (fsub : F -> F -> F) (fabs : F -> F) (fltb fleb : F -> F -> bool) (fzero fone : F).\n"
                "Variable A : Type.\nVariable cost : A -> xnum.\nVariable with_cost : A -> xnum -> A.\n",
                stop_specs() + report_specs(), status)
+    emit_group(repo, "GenInit.v", "From Coq Require Import List ZArith Bool Arith.\nFrom PV Require Import Xnum Select PyLib Argsort Vars Init.\n"
+               "Import ListNotations.\n",
+               "Variable W : Type.\nVariable dot : list xnum -> list W -> xnum.\nVariable FT : Type.\nVariable fitness_of : xnum -> dir -> FT.\n"
+               "Variable obj : list coord -> objv.\n"
+               "Variable F : Type.\nVariables (fadd fdiv : F -> F -> F) (fabs fopp : F -> F) (fleb fltb : F -> F -> bool) (fzero fone : F).\n",
+               init_specs(), status)
     from . import tschema
     tschema.emit(repo, status)
+    from . import talgo, expected
+    try:
+        sks, missing = talgo.analyse(repo)
+        coq.write_if_changed(GEN / "Algos.v", talgo.emit_algos(sks, missing))
+        status["algos"] = "regenerated" if not missing else "regenerated (missing: " + ", ".join(missing) + ")"
+        status["_skeletons"] = {s["name"]: {"prov": talgo.conforms_prov(s), "elitist": talgo.is_elitist(s), "size_regular": talgo.is_size_regular(s),
+                                           "raw_sites": s["raw_sites"], "core_writes": s["core_writes"], "objective_calls": s["objective_calls"],
+                                           "reflect": s["reflect"], "init_agent_ok": s["init_agent_ok"], "step": [(k, f) for k, f, _ in s["step"]],
+                                           "fields": s["fields"], "greedy": s["greedy"], "fingerprint": s["fingerprint"]} for s in sks}
+    except Exception as e:
+        status["algos"] = f"ERROR: {type(e).__name__}: {e}"
+        coq.write_if_changed(GEN / "Algos.v", "(* T-algo failed: " + str(e).replace("*)", "* )") + " *)\n")
+    coq.write_if_changed(GEN / "Expected.v", expected.emit_expected())
     from . import regen_more
     regen_more.regenerate(repo, status)
     coq.write_if_changed(GEN / "status.json", json.dumps(status, indent=1, sort_keys=True))
